@@ -386,11 +386,22 @@ def _root_.Jrpc.MiniGo.Out.env? : Out → Option Env
   | .ret _ env => some env
   | _ => none
 
+/-- The bounds `WithReconnectBackoff(a, b)` ends up configuring (nanoseconds): a bound that is not positive falls back to
+    its default, a maximum below the minimum is raised to it. -/
+def effMin (a : Int) : Int := if a ≤ 0 then 100 * 1000000 else a
+def effMax (a b : Int) : Int :=
+  let m := if b ≤ 0 then 5 * 1000000000 else b
+  if m < effMin a then effMin a else m
+
+def backoffVal (a b : Int) : Val :=
+  .tag "backoff" (Val.ofList [.cons (.str "minDelay") (.int a), .cons (.str "maxDelay") (.int b)])
+
 /-- Apply one option: run the translated closure the option constructor returns on the configuration `c`. -/
 def applyOpt (o : Opt) (env : Env) : Option Env :=
   match o with
   | .noReconnect => (run optExt prog_WithNoReconnect_lit1 env).env?
-  | .backoff a b => (run optExt prog_WithReconnectBackoff_lit1 ((env.set "minDelay" (.int a)).set "maxDelay" (.int b))).env?
+  | .backoff a b => (run optExt prog_WithReconnectBackoff_lit1
+      ((((env.set "time.Millisecond" (.int 1000000)).set "time.Second" (.int 1000000000)).set "minDelay" (.int a)).set "maxDelay" (.int b))).env?
   | .ping d => (run optExt prog_WithPingInterval_lit1 (env.set "d" (.int d))).env?
   | .timeout d => (run optExt prog_WithTimeout_lit1 (env.set "d" (.int d))).env?
 
